@@ -9,6 +9,7 @@ import (
 	dmdec "github.com/makiuchi-d/gozxing/datamatrix/decoder"
 	qrdec "github.com/makiuchi-d/gozxing/qrcode/decoder"
 	qrenc "github.com/makiuchi-d/gozxing/qrcode/encoder"
+	"time"
 
 	"bytes"
 	"encoding/json"
@@ -60,6 +61,9 @@ type in struct {
 	Jobs   []job  `json:"jobs"`
 	Share  int    `json:"share"` // self-test only: 1 = all goroutines deliberately share one RS encoder object through the public API
 }
+
+// a round of the quick tier takes a few seconds; a round still running after this many seconds is reported as hung
+const roundLimit = 240
 
 func nfirst(js []job) int {
 	n := 0
@@ -338,7 +342,17 @@ func main() {
 				}(g, mine, spin)
 			}
 			close(start)
-			wg.Wait()
+			// a round that does not come back (a decode that never ends on state two goroutines built at once) is an observation, not a
+			// reason to wait: the process reports hang = 1 and ends (the stuck goroutines cannot be stopped)
+			done := make(chan struct{})
+			go func() { wg.Wait(); close(done) }()
+			select {
+			case <-done:
+			case <-time.After(time.Duration(roundLimit) * time.Second):
+				verifhook.Access = nil
+				return map[string]interface{}{"op": "round", "k": e.K, "rounds": e.Rounds, "procs": e.Procs, "njobs": len(e.Jobs), "nfirst": nfirst(e.Jobs),
+					"main": mainG, "own": [][]interface{}{}, "res": [][]int{}, "races": 0, "panic": 0, "hang": 1}, nil
+			}
 			for _, l := range local {
 				results = append(results, l...)
 			}
@@ -378,6 +392,6 @@ func main() {
 		}
 		mu.Unlock()
 		return map[string]interface{}{"op": "round", "k": e.K, "rounds": e.Rounds, "procs": e.Procs, "njobs": len(e.Jobs), "nfirst": nfirst(e.Jobs),
-			"main": mainG, "own": own, "res": res, "races": 0, "panic": 0}, nil
+			"main": mainG, "own": own, "res": res, "races": 0, "panic": 0, "hang": 0}, nil
 	})
 }
